@@ -4,11 +4,11 @@ CONSTANTS
   Pending = {"c4"}
   Carol = {"c1", "c2", "c4"}
   SmallBw = {"c2"}
-  PolNames = {"PA", "PB", "PD"}
-  Heights = {100}
-  HtlcNames = {"H1", "H2", "H3", "H4"}
+  PolNames = {"PA", "PF"}
+  Heights = {98, 100, 101, 104}
+  HtlcNames = {"H5", "H6", "H12", "H13", "H14", "H15"}
   MaxSteps = 3
-  Variant = "stopAtMissing"
+  Variant = "ok"
   Guard = "-"
 INVARIANTS TypeOK PolicyPropagated HandedOnlyIfAdvertisedAccepts FailedOnlyIfNoLinkAccepts FailureNamesViolatedRule UnknownNextPeerOnlyIf DecidedAtCurrentHeight DecisionAsAdvertised
 CHECK_DEADLOCK FALSE
